@@ -24,7 +24,8 @@ COMPONENTS = {"real": ["ECAgent.Core.Environment.add_agent / remove_agent", "Sys
                        "SpaceWorld / DiscreteWorld / LineWorld / GridWorld add_agent / remove_agent"],
               "stub": ["component classes and agents are harness-defined"]}
 PROBES = ["pool_deleted_and_recreated", "leave_from_middle", "two_models_same_type", "spatial_join_leave", "rejoin",
-          "attach_after_leaving", "subclass_component", "resident_touch_run", "manual_register", "reject_join", "reject_leave"]
+          "attach_after_leaving", "subclass_component", "resident_touch_run", "manual_register", "reject_join", "reject_leave",
+          "model_completed_then_join_leave"]
 TECHNIQUE = "deterministic simulation: seeded join/leave/attach/detach histories interleaved over several live models vs a per-model mirror reference; known-finding classifier for resident attach/detach"
 LEVEL_TEXT = ("Seeded search over join/leave/attach/detach histories on 1-3 live models; after every operation, for every "
               "component type and every model, the exposed listing must be element-wise identical (objects, joining order) to "
@@ -62,7 +63,7 @@ CT = [CA, CB, CC, CD, CE]
 
 
 def generate(rng, tier):
-    nm = rng.choice([1, 1, 2, 2, 3])
+    nm = rng.choice([1, 1, 2, 2, 3] + ([3, 4] if tier == "thorough" else []))
     worlds = [gen_world(rng, kinds=("plain", "plain", "space", "discrete", "line", "grid"), max_cells=24) for _ in range(nm)]
     nag = [rng.randint(2, 8) for _ in range(nm)]
     touch = rng.random() < 0.15
@@ -86,8 +87,10 @@ def generate(rng, tier):
             ops.append({"m": mi, "op": "detach", "k": k, "t": rng.randrange(5), "manual": rng.choice(["no", "before", "after"])})
         elif r < 0.9:
             ops.append({"m": mi, "op": "query", "t": rng.randrange(5)})
-        elif r < 0.95:
+        elif r < 0.93:
             ops.append({"m": mi, "op": "leave_ghost"})
+        elif r < 0.955:
+            ops.append({"m": mi, "op": "lifecycle", "what": rng.choice(["complete", "step", "step", "complete"])})
         else:
             ops.append({"m": mi, "op": "join_dup", "k": k})
     return {"worlds": worlds, "agents": nag, "touch": touch, "ops": ops}
@@ -272,6 +275,14 @@ def execute(sc, ctx):
             twin.add_component(CB(twin, mm.model))
             args = mm.ref.real([0, 0, 0]) if mm.ref.spatial else ()
             ctx.expect_raises("join-duplicate", DuplicateAgentError, mm.env.add_agent, twin, *args)
+        elif kind == "lifecycle":
+            # the listing claim does not depend on the model's lifecycle: stepping or completing a model changes nothing
+            if op["what"] == "complete":
+                ctx.expect_ok("complete", mm.model.complete)
+                ctx.probe("model_completed_then_join_leave")
+            else:
+                ctx.expect_ok("step", mm.model.execute)
+            ctx.event("lifecycle", mi, op["what"])
         elif kind == "query":
             pass
         check_all(kind)
